@@ -103,6 +103,8 @@ def build(shape_key, edges, kg, spelling, pin, shared, mode, L=60):
                 t["alloc"] = ["r1"] if shared else ["r" + nid]
             if fid in deps:
                 t["deps"] = deps[fid]
+                if spelling == "split":
+                    t["depsplit"] = True
             if fid in precs:
                 t["prec"] = precs[fid]
             if pin in ("container", "container-early") and kids and fid == next(f for f, _p, c in nl if c):
@@ -139,7 +141,9 @@ def universe(tier):
             for kg in (KG_Q if tier == "quick" else KG_T):
                 if not edges and kg != KG_Q[0]:
                     continue
-                for spelling in ("rel", "abs", "prec"):
+                for spelling in ("rel", "abs", "prec", "split"):
+                    if spelling == "split" and max([sum(1 for e in edges if e[0] == x) for x, _y in edges] or [0]) < 2:
+                        continue  # 'split' = one depends statement per predecessor: differs from 'rel' only with >= 2 predecessors
                     if spelling == "prec" and kg[0] != "end" and tier == "quick":
                         continue
                     if not edges and spelling != "rel":
